@@ -23,6 +23,7 @@ func c17(p *P) {
 	p.include(c09, map[string]string{"C09.R5": "C17.R7", "C09.R6": "C17.R7b"}, map[string]string{"C17.R7": "checkpoint writer/reader agreement (imported store serves the same power tables)", "C17.R7b": "power-table derivation"})
 
 	writers := p.dsWriters()
+	p.gImportCheckpointAfterDelta("C17.R4")
 	imp := p.fn("C17.R1", "certstore.importSnapshotToDatastoreWithTestingPowerTableFrequency")
 	if imp != nil {
 		all := p.writeSites(imp, writers)
